@@ -329,7 +329,13 @@ class Extractor:
                         break
                     j += 1
                 if j >= len(body_m) or body_m[j] != ';':
-                    raise LostAnchor('%s: cannot find end of statement after %r' % (qual, anchor))
+                    # the anchored line opens a block (loop / if): insert after its closing brace
+                    ob = body_m.find('{', pos)
+                    nl = body_m.find('\n', pos)
+                    if ob < 0 or (nl >= 0 and ob > nl):
+                        raise LostAnchor('%s: cannot find end of statement after %r' % (qual, anchor))
+                    edits.append((match_close(body_m, ob) + 1, '\n' + text + '\n'))
+                    continue
                 edits.append((j + 1, '\n' + text + '\n'))
 
         # apply edits back to front
